@@ -12,6 +12,7 @@ import (
 	"verif/internal/c07"
 	"verif/internal/c08"
 	"verif/internal/c09"
+	"verif/internal/c10"
 	"verif/internal/c11"
 	"verif/internal/c12"
 	"verif/internal/c13"
@@ -31,6 +32,7 @@ func init() {
 	monitors["C07"] = c07.Run
 	monitors["C08"] = c08.Run
 	monitors["C09"] = c09.Run
+	monitors["C10"] = c10.Run
 	monitors["C11"] = c11.Run
 	monitors["C12"] = c12.Run
 	monitors["C13"] = c13.Run
